@@ -22,6 +22,18 @@ class SignallingCondition(threading.Condition):
             time.sleep(0.0005)
         return False
 
+    # ---- schedule control at the object's own lock (an existing suspension point, so only interleavings the program can
+    #      have are produced): a thread other than the designated waiter that is about to take the lock reports its
+    #      arrival and is held there until the harness lets it go (or ``max`` seconds have passed)
+    gate = None
+
+    def __enter__(self):
+        gate = self.gate
+        if gate is not None and threading.get_ident() != gate.get("waiter") and not gate["go"].is_set():
+            gate["arrived"].set()
+            gate["go"].wait(gate.get("max", 20.0))
+        return super().__enter__()
+
     def wait(self, timeout=None):
         self.waits += 1
         self.waiting.set()
@@ -130,3 +142,45 @@ def run_waiters(fns, cond, deliver, join_timeout=60.0, enter_timeout=30.0, grace
         else:
             out.append((box["status"], box["value"]))
     return out
+
+
+def arrival_race(cond, receive, wait_call, enter_timeout=30.0, join_timeout=60.0):
+    """The schedule "a frame is being received at the very moment a wait begins": ``receive()`` runs in its own thread and
+    is held where it takes the object's lock; then ``wait_call()`` starts in a second thread; once that one is parked in
+    wait() the receiver is let go.  The frame is processed after the wait began, so the waiter must be handed it.
+
+    Returns (status, value) of the waiter: 'returned' / 'raised' / 'hung' / 'never-waited' / 'receiver-never-arrived'."""
+    gate = {"waiter": None, "arrived": threading.Event(), "go": threading.Event(), "max": 30.0}
+    cond.gate = gate
+    box = {}
+
+    def waiter():
+        gate["waiter"] = threading.get_ident()
+        try:
+            box["value"] = wait_call()
+            box["status"] = "returned"
+        except BaseException as exc:  # noqa: BLE001
+            box["value"], box["status"] = exc, "raised"
+    rx = threading.Thread(target=receive, daemon=True)
+    rx.start()
+    try:
+        if not gate["arrived"].wait(enter_timeout):
+            return "receiver-never-arrived", None
+        n = cond.waits
+        wt = threading.Thread(target=waiter, daemon=True)
+        wt.start()
+        import time
+        end = time.time() + enter_timeout
+        while time.time() < end and wt.is_alive() and not (cond.waits > n and cond.waiting.is_set()):
+            time.sleep(0.0005)
+        if wt.is_alive() and not (cond.waits > n and cond.waiting.is_set()):
+            return "never-waited", None
+        gate["go"].set()
+        rx.join(join_timeout)
+        wt.join(join_timeout)
+        if wt.is_alive():
+            return "hung", None
+        return box.get("status", "hung"), box.get("value")
+    finally:
+        gate["go"].set()
+        cond.gate = None
